@@ -370,7 +370,7 @@ func runC11(c *Ctx) {
 			computed = true
 		}
 		for _, r := range Returns(pd) {
-			expand(r.Results[0], r, 0)
+			expand(ReturnOperand(r, 0), r, 0)
 		}
 		c.Check(FuncKey(pd)+"::exit-status::constant", pd.Pos(), !computed, "printDiagnostics returns one of a fixed set of constant statuses")
 		n1 := 0
